@@ -297,7 +297,7 @@ class Check:
 
     def coqchk(self):
         rc, out = sh(["timeout", "1500", "coqchk", "-silent", "-o", "-Q", "theories", "Cam",
-                      "Cam.%s" % self.pid], cwd=COQ, timeout=1600)
+                      "Cam.props.%s" % self.pid], cwd=COQ, timeout=1600)
         axioms = []
         m = re.search(r"\* Axioms:\s*(.*?)(?:\n\s*\*|\Z)", out, flags=re.S)
         if m:
